@@ -1,17 +1,397 @@
-"""Contracts of ExecutionState verified against the real bodies (placeholders are filled in below)."""
+"""Contracts of ExecutionState verified against the real bodies in state.py:
+fetch_paginated_operations, get_checkpoint_result, _mark_orphans, create_checkpoint; the batcher is in batcher.py."""
+from __future__ import annotations
 
+import z3
 
-def lookup_faithful(chk):
-    pass
+from pyvc import ops
+from pyvc.engine import Engine, Hooks
+from pyvc.loader import ClassInfo
+from pyvc.loops import LoopContract
+from pyvc.ops import F, T, is_none, mk_opt, strip_opt
+from pyvc.state import St
+from pyvc.values import ClassRef, OpaqueFn, Opt, Ref, Sym, Unsupported, enum_sort, fresh, fresh_name, is_sym, simp, zbool, zstr
 
+from . import batcher
+from .setmodel import SEQ, SS, SeqModel, SetModel, arr_of, new_zmapset, new_zseq, new_zset, op_id, opelem_attr, rel
 
-def merge_all_pages(chk):
-    pass
-
-
-def sync_blocks(chk):
-    pass
+FETCH = "state.ExecutionState.fetch_paginated_operations"
+MARK = "state.ExecutionState._mark_orphans"
+CREATE = "state.ExecutionState.create_checkpoint"
 
 
 def consumer(chk, prefix):
-    pass
+    batcher.check_consumer(chk, prefix)
+
+
+class StateHooks(Hooks):
+    def opaque_attr(self, eng, st, ref, name):
+        v = opelem_attr(st, ref, name)
+        if v is not None:
+            return [("val", v, st)]
+        return Hooks.opaque_attr(self, eng, st, ref, name)
+
+    def opaque_call(self, eng, st, fn, args, kwargs):
+        n = fn.name
+        if n == "DurableServiceClient.get_execution_state":
+            st.emit("get_state", kwargs=dict(kwargs), args=tuple(args))
+            s2 = st.fork()
+            exc = eng.new_symexc(s2, "get_state")
+            page = new_zseq(st, name="page")
+            out = st.alloc("opaque:StateOutput", {"operations": page, "next_marker": eng.sym_of_type("str | None", "page_marker", st)})
+            st.ghost["pages"] = z3.Concat(st.ghost["pages"], st.get(page)["seq"])
+            st.ghost["marker"] = st.get(out)["next_marker"]
+            st.ghost["calls"] = st.ghost.get("calls", 0) + 1
+            return [("val", out, st), ("raise", exc, s2)]
+        if n == "OpsMap.update":
+            st.emit("ops_update", arg=args[0])
+            return [("val", None, st)]
+        if n == "OpsMap.get":
+            st.emit("ops_get", key=args[0])
+            return [("val", st.ghost["stored_op"], st)]
+        if n == "Queue.put":
+            st.emit("put", item=args[0])
+            return [("val", None, st)]
+        if n == "FailedEvent.is_set":
+            b = fresh("bool", "failed_is_set")
+            st.ghost["failed_seen"] = b.t
+            return [("val", b, st)]
+        if n == "FailedEvent.wait":
+            # contract of CompletionEvent.wait on an event that is set with an error (the consumer only ever sets it with one): raises it
+            exc = st.alloc(eng.program.cls("exceptions.BackgroundThreadError"), {"args": ("stored",), "source_exception": eng.new_symexc(st, "src")})
+            st.emit("failed_wait", exc=exc)
+            return [("raise", exc, st)]
+        if n == "CompletionEventObj.wait":
+            st.emit("wait", ev=fn.info)
+            s2 = st.fork()
+            exc = s2.alloc(eng.program.cls("exceptions.BackgroundThreadError"), {"args": ("bg",), "source_exception": eng.new_symexc(s2, "src")})
+            s2.emit("wait_raised", exc=exc)
+            return [("val", True, st), ("raise", exc, s2)]
+        return Hooks.opaque_call(self, eng, st, fn, args, kwargs)
+
+
+# ------------------------------------------------------------------------------------------------ fetch_paginated_operations
+def merge_all_pages(chk, prefix="C01"):
+    eng = Engine(hooks=StateHooks())
+    eng.container_models["zseq"] = SeqModel()
+    st = St()
+    P = eng.program
+    chk.function(FETCH, "verified (loop invariant over the page chain)")
+    init = new_zseq(st, name="init_ops")
+    self_ = st.alloc(P.cls("state.ExecutionState"), {"durable_execution_arn": fresh("str", "arn"), "_service_client": st.alloc("opaque:DurableServiceClient", {}),
+                                                    "_operations_lock": st.alloc("opaque:Lock", {}), "operations": st.alloc("opaque:OpsMap", {})})
+    token = fresh("str", "token")
+    marker0 = eng.sym_of_type("str | None", "marker0", st)
+    st.ghost["pages"] = z3.Empty(SEQ)
+    st.ghost["marker"] = marker0
+    init_seq = st.get(init)["seq"]
+
+    def abstract(eng_, st_):
+        a = st_.env.get("all_operations")
+        if isinstance(a, Ref) and st_.get(a).get("__kind__") == "list":
+            st_.env["all_operations"] = new_zseq(st_, z3.Empty(SEQ))
+            st_.ghost["init_empty"] = True
+
+    def inv(eng_, st_):
+        a = st_.get(st_.env["all_operations"])["seq"]
+        base = init_seq if not st_.ghost.get("init_empty") else z3.Empty(SEQ)
+        return z3.And(a == z3.Concat(base, st_.ghost["pages"]), ops.values_equal(st_, st_.env["next_marker"], st_.ghost["marker"]))
+
+    def havoc(eng_, st_):
+        st_.env["all_operations"] = new_zseq(st_, name="all_ops")
+        st_.ghost["pages"] = z3.Const(fresh_name("pages"), SEQ)
+        m = eng_.sym_of_type("str | None", "marker", st_)
+        st_.env["next_marker"] = m
+        st_.ghost["marker"] = m
+        st_.ghost["iter_start"] = len(st_.trace)
+        st_.env.pop("output", None)
+
+    def on_step(eng_, s):
+        calls = [e for e in s.trace[s.ghost["iter_start"]:] if e.kind == "get_state"]
+        ok = len(calls) == 1
+        goal = z3.BoolVal(ok)
+        if ok:
+            kw = calls[0].kwargs
+            goal = z3.And(ops.values_equal(s, kw.get("next_marker"), s.ghost["marker_at_call"]) if "marker_at_call" in s.ghost else T,
+                          ops.values_equal(s, kw.get("checkpoint_token"), token), ops.values_equal(s, kw.get("durable_execution_arn"), s.get(self_)["durable_execution_arn"]))
+        chk.prove(f"{prefix}.state.merge_all_pages.chain", s.pc, goal, desc="each page is requested exactly once with the marker returned by the previous page, the caller's token and the execution ARN")
+
+    def havoc2(eng_, st_):
+        havoc(eng_, st_)
+        st_.ghost["marker_at_call"] = st_.ghost["marker"]
+
+    eng.loop_handlers[(FETCH, "while", 0)] = LoopContract(chk, f"{prefix}.state.merge_all_pages.loop", inv, havoc2, abstract=abstract, on_step=on_step,
+                                                          desc="all_operations == initial operations ++ all pages fetched so far; next_marker is the marker of the last page")
+    fi = P.func(FETCH)
+    res = eng.run(fi, [self_, init, token, marker0], st=st)
+    chk.paths += len(res)
+    normal = 0
+    for k, v, s in res:
+        if k == "raise":
+            # only a failing service call may raise; then nothing was merged partially
+            upd = [e for e in s.trace if e.kind == "ops_update"]
+            chk.prove(f"{prefix}.state.merge_all_pages.raise_only_from_client", s.pc, isinstance(v, Ref) and v.cls == "symexc" and not upd, desc="the only exception is the service client's own; no partial merge happens before it")
+            continue
+        normal += 1
+        upd = [e for e in s.trace if e.kind == "ops_update"]
+        ok = len(upd) == 1
+        goal = z3.BoolVal(ok)
+        if ok:
+            arg = upd[0].arg
+            stor = s.get(arg) if isinstance(arg, Ref) else {}
+            if stor.get("__kind__") == "seqdict":
+                whole = z3.Concat(init_seq, s.ghost["pages"])
+                goal = z3.And(z3.BoolVal(stor["key_is_operation_id"] and stor["value_is_element"]), z3.Or(stor["seq"] == whole, z3.And(z3.Length(init_seq) == 0, stor["seq"] == s.ghost["pages"])),
+                              z3.Not(ops.truth(s, s.ghost["marker"])))
+            elif stor.get("__kind__") == "dict" and not stor["e"]:
+                goal = z3.And(z3.Length(init_seq) == 0, z3.Length(s.ghost["pages"]) == 0, z3.Not(ops.truth(s, s.ghost["marker"])))
+            else:
+                goal = F
+        chk.prove(f"{prefix}.state.merge_all_pages.all_pages", s.pc, goal,
+                  desc="on return, operations was updated once with {op.operation_id: op} over initial operations ++ every page of the chain (later occurrences win, S: dict), and the chain ended with a falsy marker",
+                  sample="fetch_paginated_operations exit: update source == init ++ pages, marker falsy")
+    if not normal:
+        chk.fault("fetch_paginated_operations: no normal exit path")
+    return eng
+
+
+# ------------------------------------------------------------------------------------------------ get_checkpoint_result
+def lookup_faithful(chk, prefix="C01"):
+    eng = Engine(hooks=StateHooks())
+    P = eng.program
+    st = St()
+    chk.function("state.ExecutionState.get_checkpoint_result", "verified")
+    op = eng.sym_of_type("Operation", "stored", st, P.modules["lambda_service"])
+    present = z3.Bool("stored.present")
+    st.ghost["stored_op"] = mk_opt(z3.Not(present), op)
+    self_ = st.alloc(P.cls("state.ExecutionState"), {"_operations_lock": st.alloc("opaque:Lock", {}), "operations": st.alloc("opaque:OpsMap", {})})
+    key = fresh("str", "checkpoint_id")
+    res = eng.run(P.func("state.ExecutionState.get_checkpoint_result"), [self_, key], st=st)
+    chk.paths += len(res)
+    tcls = P.cls("lambda_service.OperationType")
+    DET = {"STEP": "step_details", "CALLBACK": "callback_details", "CHAINED_INVOKE": "chained_invoke_details", "CONTEXT": "context_details"}
+    for k, v, s in res:
+        gets = [e for e in s.trace if e.kind == "ops_get"]
+        ok = k == "val" and len(gets) == 1 and isinstance(v, Ref) and getattr(v.cls, "name", "") == "CheckpointedResult"
+        goal = z3.BoolVal(ok)
+        if ok:
+            r = s.get(v)
+            goal = z3.And(goal, ops.values_equal(s, gets[0].key, key))
+            so = s.get(op)
+            found = z3.And(z3.Not(is_none(r["operation"])), z3.BoolVal(strip_opt(r["operation"]) == op), ops.values_equal(s, r["status"], so["status"]))
+            parts = []
+            for tname, dname in DET.items():
+                d = so[dname]
+                dd = strip_opt(d)
+                for fld in ("result", "error"):
+                    exp_none = z3.Or(is_none(d), is_none(s.get(dd)[fld])) if dd is not None else T
+                    got = r[fld]
+                    same = z3.If(exp_none, is_none(got), z3.And(z3.Not(is_none(got)), ops.values_equal(s, strip_opt(got), strip_opt(s.get(dd)[fld])) if dd is not None and strip_opt(got) is not None and strip_opt(s.get(dd)[fld]) is not None else F))
+                    parts.append(z3.Implies(so["operation_type"].t == enum_sort(tcls)[1][tname], same))
+            others = z3.And([so["operation_type"].t != enum_sort(tcls)[1][t] for t in DET])
+            parts.append(z3.Implies(others, z3.And(is_none(r["result"]), is_none(r["error"]))))
+            notfound = z3.And(is_none(r["operation"]), is_none(r["status"]), is_none(r["result"]), is_none(r["error"]))
+            goal = z3.And(goal, z3.If(present, z3.And(found, z3.And(parts)), notfound))
+        chk.prove(f"{prefix}.state.lookup_faithful", s.pc, goal,
+                  desc="get_checkpoint_result(id) looks up exactly id; a stored operation yields (operation, its status, result/error of the details object selected by its type); otherwise the not-found result; no effect",
+                  sample="get_checkpoint_result over an arbitrary stored Operation")
+    return eng
+
+
+# ------------------------------------------------------------------------------------------------ _mark_orphans
+def mark_orphans_post(st, mref, done, done2, ctx):
+    """contract of _mark_orphans(ctx): M1 nothing removed, M2 children of ctx marked, M3 marked set closed under children, M4 ctx itself unchanged"""
+    p, c = z3.String(fresh_name("p")), z3.String(fresh_name("c"))
+    return {
+        "M1_monotone": z3.ForAll([c], z3.Implies(z3.Select(done, c), z3.Select(done2, c))),
+        "M2_children": z3.ForAll([c], z3.Implies(z3.And(rel(st, mref, ctx, c), c != ctx), z3.Select(done2, c))),
+        "M3_closed": z3.ForAll([p, c], z3.Implies(z3.And(z3.Select(done2, p), z3.Not(z3.Select(done, p)), rel(st, mref, p, c), c != ctx), z3.Select(done2, c))),
+        "M4_self": z3.Select(done2, ctx) == z3.Select(done, ctx),
+        "M6_deeper": z3.ForAll([c], z3.Implies(z3.And(z3.Select(done2, c), z3.Not(z3.Select(done, c))), RANK(c) > RANK(ctx))),
+    }
+
+
+RANK = z3.Function("depth", SS, z3.IntSort())  # depth of an operation id in the operation tree (ids encode their path: C08)
+
+
+def tree_shaped(st, mref):
+    """well-formedness of the registered parent links: a child is strictly deeper than its parent (no cycles)"""
+    p, c = z3.String(fresh_name("p")), z3.String(fresh_name("c"))
+    return z3.ForAll([p, c], z3.Implies(rel(st, mref, p, c), RANK(p) < RANK(c)))
+
+
+def mark_orphans(chk, prefix="C10"):
+    eng = Engine(hooks=StateHooks())
+    eng.container_models["zset"] = eng.container_models["zsetview"] = eng.container_models["zmapset"] = SetModel()
+    P = eng.program
+    st = St()
+    chk.function(MARK, "verified (BFS loop invariant)")
+    m = new_zmapset(st, "ptc")
+    done = new_zset(st, name="parent_done")
+    done0 = st.get(done)["arr"]
+    self_ = st.alloc(P.cls("state.ExecutionState"), {"_parent_to_children": m, "_parent_done": done})
+    ctx = fresh("str", "context_id")
+    st.assume(tree_shaped(st, m))
+
+    def abstract(eng_, st_):
+        for v in ("all_descendants", "to_process"):
+            r = st_.env[v]
+            if st_.get(r).get("__kind__") == "set":
+                st_.env[v] = new_zset(st_, arr_of(st_, r))
+
+    def inv(eng_, st_):
+        D, Pn = arr_of(st_, st_.env["all_descendants"]), arr_of(st_, st_.env["to_process"])
+        p, c = z3.String(fresh_name("p")), z3.String(fresh_name("c"))
+        return z3.And(z3.ForAll([p, c], z3.Implies(z3.And(z3.Select(D, p), rel(st_, m, p, c)), z3.Or(z3.Select(D, c), z3.Select(Pn, c)))),
+                      z3.Or(z3.Select(D, ctx.t), z3.Select(Pn, ctx.t)), arr_of(st_, done) == done0,
+                      z3.ForAll([c], z3.Implies(z3.And(z3.Or(z3.Select(D, c), z3.Select(Pn, c)), c != ctx.t), RANK(c) > RANK(ctx.t))))
+
+    def havoc(eng_, st_):
+        st_.env["all_descendants"] = new_zset(st_, name="D")
+        st_.env["to_process"] = new_zset(st_, name="P")
+        for v in ("current_id", "direct_children"):
+            st_.env.pop(v, None)
+
+    eng.loop_handlers[(MARK, "while", 0)] = LoopContract(chk, f"{prefix}.state.closure.loop", inv, havoc, abstract=abstract,
+                                                         desc="every registered child of a collected id is collected or still to be processed; the context itself is collected or to be processed")
+    res = eng.run(P.func(MARK), [self_, ctx], st=st)
+    chk.paths += len(res)
+    for k, v, s in res:
+        if k == "raise":
+            chk.prove(f"{prefix}.state.closure.total", s.pc, F, desc="_mark_orphans does not raise")
+            continue
+        for name, goal in mark_orphans_post(s, m, done0, arr_of(s, done), ctx.t).items():
+            chk.prove(f"{prefix}.state.closure.{name}", s.pc, goal, desc="contract of _mark_orphans (used at its call site in create_checkpoint)", sample=f"_mark_orphans exit: {name}")
+    return eng
+
+
+# ------------------------------------------------------------------------------------------------ create_checkpoint
+def create_checkpoint(chk, prefix, want):
+    eng = Engine(hooks=StateHooks())
+    eng.container_models["zset"] = eng.container_models["zsetview"] = eng.container_models["zmapset"] = SetModel()
+    P = eng.program
+    st = St()
+    chk.function(CREATE, "verified")
+    chk.function(MARK, "contract used at the call site (verified in C10.state.closure.*)")
+    m = new_zmapset(st, "ptc")
+    done = new_zset(st, name="parent_done")
+    completed = z3.Array("completed_contexts", SS, z3.BoolSort())  # ghost: contexts whose SUCCEED/FAIL was handed over
+    cc0 = z3.Array("state_completed_contexts", SS, z3.BoolSort())
+    comp_set = new_zset(st, cc0, name="completed")
+    self_ = st.alloc(P.cls("state.ExecutionState"), {"_parent_to_children": m, "_parent_done": done, "_completed_contexts": comp_set, "_parent_done_lock": st.alloc("opaque:Lock", {}),
+                                                    "_checkpointing_failed": st.alloc("opaque:FailedEvent", {}), "_checkpoint_queue": st.alloc("opaque:Queue", {})})
+    upd0 = eng.sym_of_type("OperationUpdate", "u", st, P.modules["lambda_service"])
+    upd = mk_opt(z3.Bool("u.is_none"), upd0)
+    is_sync = fresh("bool", "is_sync")
+    u = st.get(upd0)
+    uid = u["operation_id"].t
+    par = u["parent_id"]
+    par_t = strip_opt(par).t
+    par_truthy = ops.truth(st, par)
+    done0 = st.get(done)["arr"]
+    m0 = dict(st.get(m))
+
+    def R0(p, c):
+        return z3.And(z3.Select(m0["has"], p), z3.Select(z3.Select(m0["sets"], p), c))
+    p_, c_ = z3.String("p!inv"), z3.String("c!inv")
+    I2 = z3.ForAll([p_, c_], z3.Implies(z3.And(R0(p_, c_), z3.Or(z3.Select(done0, p_), z3.Select(completed, p_))), z3.Select(done0, c_)))
+    st.assume(tree_shaped(st, m))
+    st.assume(z3.Implies(par_truthy, RANK(par_t) < RANK(uid)))  # U/C08: the parent of an operation is strictly shallower
+    st.assume(I2)  # data-structure invariant assumed on entry, re-established on exit (C10.state.invariant)
+    x0 = z3.String("x!inv")
+    st.assume(z3.ForAll([x0], z3.And(z3.Implies(z3.Select(completed, x0), z3.Select(cc0, x0)), z3.Implies(z3.And(z3.Select(cc0, x0), z3.Not(z3.Select(completed, x0))), z3.Select(done0, x0)))))
+
+    def mark_summary(eng_, st_, args, kwargs):
+        ctx = zstr(args[1])
+        d1 = arr_of(st_, done)
+        d2 = z3.Array(fresh_name("done2"), SS, z3.BoolSort())
+        for goal in mark_orphans_post(st_, m, d1, d2, ctx).values():
+            st_.assume(goal)
+        st_.put(done, dict(st_.get(done), arr=d2))
+        st_.emit("mark_orphans", ctx=ctx)
+        return [("val", None, st_)]
+    eng.summaries[MARK] = mark_summary
+    eng.summaries["threading.CompletionEvent.__init__"] = None
+    del eng.summaries["threading.CompletionEvent.__init__"]
+    ce_cls = P.cls("threading.CompletionEvent")
+
+    orig_construct = eng.construct
+
+    def construct(cls, args, kwargs, st_):
+        if cls is ce_cls:
+            ev = st_.alloc("opaque:CompletionEventObj", {})
+            st_.emit("new_event", ev=ev)
+            return [("val", ev, st_)]
+        return orig_construct(cls, args, kwargs, st_)
+    eng.construct = construct
+
+    res = eng.run(P.func(CREATE), [self_, upd, is_sync], st=st)
+    chk.paths += len(res)
+    tcls, acls = P.cls("lambda_service.OperationType"), P.cls("lambda_service.OperationAction")
+    is_ctx_done = z3.And(u["operation_type"].t == enum_sort(tcls)[1]["CONTEXT"], z3.Or(u["action"].t == enum_sort(acls)[1]["SUCCEED"], u["action"].t == enum_sort(acls)[1]["FAIL"]))
+    for k, v, s in res:
+        puts = [e for e in s.trace if e.kind == "put"]
+        waits = [e for e in s.trace if e.kind == "wait"]
+        news = [e for e in s.trace if e.kind == "new_event"]
+        orphan = k == "raise" and isinstance(v, Ref) and getattr(v.cls, "name", "") == "OrphanedChildException"
+        failed = [e for e in s.trace if e.kind == "failed_wait"]
+        not_none = z3.Not(is_none(upd))
+        if "C03" in want or "C06" in want:
+            if k == "val":
+                ok = len(puts) == 1
+                goal = z3.BoolVal(ok)
+                if ok:
+                    q = s.get(puts[0].item)
+                    q_ok = isinstance(puts[0].item, Ref) and getattr(puts[0].item.cls, "name", "") == "QueuedOperation"
+                    same_upd = z3.If(is_none(upd), is_none(q["operation_update"]), z3.And(z3.Not(is_none(q["operation_update"])), z3.BoolVal(strip_opt(q["operation_update"]) == upd0))) if q_ok else F
+                    ev = strip_opt(q["completion_event"]) if q_ok else None
+                    sync_case = z3.BoolVal(len(waits) == 1 and len(news) == 1 and ev is not None and waits[0].ev == ev and news[0].ev == ev and s.trace.index(puts[0]) < s.trace.index(waits[0]))
+                    sync_case = z3.And(sync_case, z3.Not(is_none(q["completion_event"])) if q_ok else F)
+                    async_case = z3.And(z3.BoolVal(len(waits) == 0), is_none(q["completion_event"]) if q_ok else F)
+                    goal = z3.And(same_upd, z3.If(is_sync.t, sync_case, async_case))
+                chk.prove(f"{prefix}.state.sync_blocks", s.pc, goal,
+                          desc="normal return: exactly one QueuedOperation(update, event) was put; synchronous => a fresh completion event, and the call returned through its wait(); asynchronous => no event, no wait",
+                          sample="create_checkpoint normal return")
+            elif any(e.kind == "wait_raised" for e in s.trace):
+                chk.prove(f"{prefix}.state.sync_blocks.error_propagates", s.pc, isinstance(v, Ref) and v == [e for e in s.trace if e.kind == "wait_raised"][0].exc and len(puts) == 1,
+                          desc="a failure stored in the completion event leaves create_checkpoint as the raised exception (the caller never proceeds)")
+            if failed:
+                chk.prove(f"{prefix}.produce.fail_fast", s.pc, z3.BoolVal(k == "raise" and v == failed[0].exc and not puts), desc="once the failed flag is observed set, create_checkpoint raises the stored BackgroundThreadError and enqueues nothing")
+            seen = s.ghost.get("failed_seen")
+            if seen is not None and k == "val":
+                chk.prove(f"{prefix}.produce.fail_fast.checked", s.pc, z3.Not(seen), desc="a call that returns normally observed the failed flag unset before enqueueing")
+            if orphan:
+                chk.prove(f"{prefix}.state.rejected_puts_nothing", s.pc, not puts, desc="a rejected (orphaned) update is not enqueued")
+        if "C10" in want:
+            d2 = arr_of(s, done)
+            m2 = s.get(m)
+
+            def R2(p, c, m2=m2):
+                return z3.And(z3.Select(m2["has"], p), z3.Select(z3.Select(m2["sets"], p), c))
+            accepted = k == "val" or not orphan
+            # statement of C10: an update whose operation, or whose parent, is under a completed context must be rejected
+            under_done = z3.And(not_none, z3.Or(z3.Select(done0, uid), z3.And(par_truthy, z3.Or(z3.Select(done0, par_t), z3.Select(completed, par_t)))))
+            if s.ghost.get("dummy") is None:
+                pass
+            if eng.feasible(s, under_done):
+                chk.prove(f"{prefix}.state.rejects_descendants", list(s.pc) + [under_done], z3.BoolVal(orphan and not puts),
+                          desc="an update for an operation that is marked, or whose parent is marked or completed (first-time operation under an orphan / completed context), raises OrphanedChildException and is not enqueued",
+                          sample="create_checkpoint with u.operation_id or u.parent_id under a completed context")
+            # I1: the parent link of every update is registered, nothing is forgotten
+            pp, cc = z3.String(fresh_name("p")), z3.String(fresh_name("c"))
+            I1 = z3.And(z3.Implies(z3.And(not_none, par_truthy), R2(par_t, uid)), z3.ForAll([pp, cc], z3.Implies(R0(pp, cc), R2(pp, cc))))
+            chk.prove(f"{prefix}.state.invariant.links_registered", s.pc, I1, desc="I1: the (parent, id) link of the update is registered and no registered link is lost")
+            completed2 = z3.If(z3.And(not_none, is_ctx_done, z3.BoolVal(not orphan)), z3.Store(completed, uid, True), completed)
+            I2b = z3.ForAll([pp, cc], z3.Implies(z3.And(R2(pp, cc), z3.Or(z3.Select(d2, pp), z3.Select(completed2, pp))), z3.Select(d2, cc)))
+            x_ = z3.String(fresh_name("x"))
+            cc2 = arr_of(s, comp_set)
+            chk.prove(f"{prefix}.state.invariant.completed_tracked", s.pc, z3.ForAll([x_], z3.And(z3.Implies(z3.Select(completed2, x_), z3.Select(cc2, x_)), z3.Implies(z3.And(z3.Select(cc2, x_), z3.Not(z3.Select(completed2, x_))), z3.Select(d2, x_)))),
+                      desc="coupling invariant: the state's record of completed contexts contains every context whose SUCCEED/FAIL was handed over, and anything else in it is itself marked (a rejected completion)")
+            chk.prove(f"{prefix}.state.invariant.closed_under_children", s.pc, I2b,
+                      desc="I2: every registered child of a marked id or of a completed context is marked (one-step closure; implies by induction that all descendants of a completed context are marked)",
+                      sample="create_checkpoint exit: forall p c. R(p,c) and (done(p) or completed(p)) => done(c)")
+    return eng
+
+
+def sync_blocks(chk, prefix="C03"):
+    return create_checkpoint(chk, prefix, want=("C03",))
